@@ -65,177 +65,16 @@ func cleanupOrderRule(c *core.Ctx, r *core.Report) {
 				r.Violation(key, pos, "the index of the cleanup called (%s) is computed inside a helper, not from the loop of %s", an.D().Of(idxV.V), core.FuncName(root))
 				continue
 			}
-			// the loop counter: the phi of root's loop the index depends on
-			var k *ssa.Phi
-			var findPhi func(v ssa.Value, depth int)
-			findPhi = func(v ssa.Value, depth int) {
-				if k != nil || depth > 8 {
-					return
-				}
-				switch x := an.Strip(v).(type) {
-				case *ssa.Phi:
-					if x.Parent() == root {
-						k = x
-					}
-				case *ssa.BinOp:
-					findPhi(x.X, depth+1)
-					findPhi(x.Y, depth+1)
-				}
-			}
-			findPhi(idxV.V, 0)
-			if k == nil {
-				r.Violation(key, pos, "the cleanup called is %s: not indexed by a loop counter, so the cleanups do not run once each in reverse order", an.D().Of(idxV.V))
+			sw, okSw := indexSweep(root, idxV.V, rootIn, func(v ssa.Value) bool {
+				fld, _ := an.TerminalField(v)
+				return an.SameField(fld, stack)
+			})
+			if !okSw {
+				r.Violation(key, pos, "the cleanup loop cannot be read: %s (index %s): the indices len-1 … 0 cannot be shown", sw.why, an.D().Of(idxV.V))
 				continue
 			}
-			var eval func(v ssa.Value, depth int) aff
-			eval = func(v ssa.Value, depth int) aff {
-				if depth > 10 {
-					return aff{}
-				}
-				v = an.Strip(v)
-				switch x := v.(type) {
-				case *ssa.Const:
-					if x.Value != nil {
-						if b, ok := x.Type().Underlying().(*types.Basic); ok && b.Info()&types.IsInteger != 0 {
-							return aff{0, 0, x.Int64(), true}
-						}
-					}
-				case *ssa.Phi:
-					if x == k {
-						return aff{0, 1, 0, true}
-					}
-				case *ssa.Call:
-					if an.IsBuiltinCall(x, "len") {
-						if fld, _ := an.TerminalField(x.Call.Args[0]); an.SameField(fld, stack) {
-							return aff{1, 0, 0, true}
-						}
-					}
-				case *ssa.BinOp:
-					a, b := eval(x.X, depth+1), eval(x.Y, depth+1)
-					switch x.Op {
-					case token.ADD:
-						return a.add(b)
-					case token.SUB:
-						return a.sub(b)
-					}
-				}
-				return aff{}
-			}
-			idx := eval(idxV.V, 0)
-			// start and step of the counter
-			var start, step aff
-			nInit, nBack := 0, 0
-			for i, edge := range k.Edges {
-				pred := k.Block().Preds[i]
-				// a per-iteration loop variable captured by a literal is a phi of cells: its value on an edge is
-				// the last value stored into that edge's cell
-				if al, isAl := edge.(*ssa.Alloc); isAl {
-					var last ssa.Value
-					for _, st := range an.StoresTo(al) {
-						if last == nil || st.Block() == pred {
-							last = st.Val
-						}
-					}
-					if last != nil {
-						edge = last
-					}
-				}
-				ev := eval(edge, 0)
-				if k.Block().Dominates(pred) { // back edge
-					nBack++
-					step = ev.sub(aff{0, 1, 0, true})
-				} else {
-					nInit++
-					start = ev
-				}
-			}
-			if nInit != 1 || nBack != 1 || !start.ok || !step.ok || step.cL != 0 || step.cK != 0 || (step.c0 != 1 && step.c0 != -1) || start.cK != 0 || !idx.ok {
-				r.Violation(key, pos, "the cleanup loop is not a unit-step counting loop whose index is affine in the counter (start %s, step %s, index %s): the indices len-1 … 0 cannot be shown", start, step, idx)
-				continue
-			}
-			first := aff{idx.cL + idx.cK*start.cL, 0, idx.c0 + idx.cK*start.c0, true}
-			perIter := idx.cK * step.c0
-			// the loop guard: the If of the counter's block (or of the block computing the compared value) one of whose
-			// branches leaves the loop
-			var guardNorm aff
-			guardOK := false
-			entryOK, bottomTested := true, false
-			flipOp := map[token.Token]token.Token{token.LSS: token.GEQ, token.LEQ: token.GTR, token.GTR: token.LEQ, token.GEQ: token.LSS}
-			// normalise "d op 0" to "e >= 0"
-			norm := func(d aff, op token.Token) (aff, bool) {
-				switch op {
-				case token.GEQ:
-					return d, true
-				case token.GTR:
-					return d.sub(aff{0, 0, 1, true}), true
-				case token.LEQ:
-					return d.neg(), true
-				case token.LSS:
-					return d.neg().sub(aff{0, 0, 1, true}), true
-				}
-				return aff{}, false
-			}
-			callBlock := rootIn.Block()
-			for _, b := range root.Blocks {
-				iff, ok := b.Instrs[len(b.Instrs)-1].(*ssa.If)
-				if !ok {
-					continue
-				}
-				bo, ok := iff.Cond.(*ssa.BinOp)
-				if !ok {
-					continue
-				}
-				l, rr := eval(bo.X, 0), eval(bo.Y, 0)
-				if !l.ok || !rr.ok {
-					continue
-				}
-				d := l.sub(rr)
-				switch {
-				case d.cK != 0 && b != callBlock && b.Dominates(callBlock) && (b == k.Block() || k.Block().Dominates(b)):
-					// tested before the body: the call runs on the branch that leads to it
-					op := bo.Op
-					if !(b.Succs[0] == callBlock || b.Succs[0].Dominates(callBlock)) {
-						op = flipOp[op]
-					}
-					guardNorm, guardOK = norm(d, op)
-				case d.cK != 0 && callBlock.Dominates(b) && (b.Succs[0] == k.Block() || b.Succs[1] == k.Block()):
-					// tested after the body (rotated loop): the branch back to the loop head decides the *next* pass,
-					// whose counter is k+step
-					op := bo.Op
-					if b.Succs[0] != k.Block() {
-						op = flipOp[op]
-					}
-					shifted := d
-					shifted.c0 -= d.cK * step.c0
-					guardNorm, guardOK = norm(shifted, op)
-					bottomTested = true
-				}
-			}
-			if bottomTested {
-				// a rotated loop needs a test before the first pass that admits exactly "first index >= 0"
-				entryOK = false
-				for _, b := range root.Blocks {
-					iff, ok := b.Instrs[len(b.Instrs)-1].(*ssa.If)
-					if !ok || b == k.Block() || !b.Dominates(k.Block()) || k.Block().Dominates(b) {
-						continue
-					}
-					bo, ok := iff.Cond.(*ssa.BinOp)
-					if !ok {
-						continue
-					}
-					l, rr := eval(bo.X, 0), eval(bo.Y, 0)
-					if !l.ok || !rr.ok || l.cK != 0 || rr.cK != 0 {
-						continue
-					}
-					op := bo.Op
-					if !(b.Succs[0] == k.Block() || b.Succs[0].Dominates(k.Block())) {
-						op = flipOp[op]
-					}
-					if e, ok := norm(l.sub(rr), op); ok && e.eq(first) {
-						entryOK = true
-					}
-				}
-			}
+			k, idx, start, step := sw.k, sw.idx, sw.start, aff{0, 0, sw.step, true}
+			first, perIter, guardNorm, guardOK, entryOK := sw.first, sw.perIter, sw.guardNorm, sw.guardOK, sw.entryOK
 			want := aff{1, 0, -1, true}
 			switch {
 			case !first.eq(want):
@@ -256,4 +95,188 @@ func cleanupOrderRule(c *core.Ctx, r *core.Report) {
 		}
 	}
 	r.Floor("cleanup call sites inside a loop", found, 1)
+}
+
+// sweep describes how an index expression moves over a sequence inside a counting loop of root.
+type sweep struct {
+	k         *ssa.Phi
+	idx       aff // the index as an affine form in (len, k)
+	start     aff
+	step      int64
+	first     aff   // index on the first pass
+	perIter   int64 // change of the index per pass
+	guardNorm aff   // the loop runs exactly while guardNorm >= 0
+	guardOK   bool
+	entryOK   bool
+	why       string
+}
+
+// indexSweep reads the loop around `at` (an instruction of root) that drives the index value idxV; isSeq recognises
+// the sequence whose length bounds the loop.
+func indexSweep(root *ssa.Function, idxV ssa.Value, rootIn ssa.Instruction, isSeq func(ssa.Value) bool) (sw sweep, ok bool) {
+	var k *ssa.Phi
+	var findPhi func(v ssa.Value, depth int)
+	findPhi = func(v ssa.Value, depth int) {
+		if k != nil || depth > 8 {
+			return
+		}
+		switch x := an.Strip(v).(type) {
+		case *ssa.Phi:
+			if x.Parent() == root {
+				k = x
+			}
+		case *ssa.BinOp:
+			findPhi(x.X, depth+1)
+			findPhi(x.Y, depth+1)
+		}
+	}
+	findPhi(idxV, 0)
+	if k == nil {
+		sw.why = "not indexed by a loop counter"
+		return sw, false
+	}
+	var eval func(v ssa.Value, depth int) aff
+	eval = func(v ssa.Value, depth int) aff {
+		if depth > 10 {
+			return aff{}
+		}
+		v = an.Strip(v)
+		switch x := v.(type) {
+		case *ssa.Const:
+			if x.Value != nil {
+				if b, ok := x.Type().Underlying().(*types.Basic); ok && b.Info()&types.IsInteger != 0 {
+					return aff{0, 0, x.Int64(), true}
+				}
+			}
+		case *ssa.Phi:
+			if x == k {
+				return aff{0, 1, 0, true}
+			}
+		case *ssa.Call:
+			if an.IsBuiltinCall(x, "len") && isSeq(x.Call.Args[0]) {
+				return aff{1, 0, 0, true}
+			}
+		case *ssa.BinOp:
+			a, b := eval(x.X, depth+1), eval(x.Y, depth+1)
+			switch x.Op {
+			case token.ADD:
+				return a.add(b)
+			case token.SUB:
+				return a.sub(b)
+			}
+		}
+		return aff{}
+	}
+	idx := eval(idxV, 0)
+	var start, step aff
+	nInit, nBack := 0, 0
+	for i, edge := range k.Edges {
+		pred := k.Block().Preds[i]
+		if al, isAl := edge.(*ssa.Alloc); isAl {
+			var last ssa.Value
+			for _, st := range an.StoresTo(al) {
+				if last == nil || st.Block() == pred {
+					last = st.Val
+				}
+			}
+			if last != nil {
+				edge = last
+			}
+		}
+		ev := eval(edge, 0)
+		if k.Block().Dominates(pred) {
+			nBack++
+			step = ev.sub(aff{0, 1, 0, true})
+		} else {
+			nInit++
+			start = ev
+		}
+	}
+	if nInit != 1 || nBack != 1 || !start.ok || !step.ok || step.cL != 0 || step.cK != 0 || (step.c0 != 1 && step.c0 != -1) || start.cK != 0 || !idx.ok {
+		sw.why = sprintf("not a unit-step counting loop whose index is affine in the counter (start %s, step %s, index %s)", start, step, idx)
+		return sw, false
+	}
+	first := aff{idx.cL + idx.cK*start.cL, 0, idx.c0 + idx.cK*start.c0, true}
+	perIter := idx.cK * step.c0
+	var guardNorm aff
+	guardOK := false
+	entryOK, bottomTested := true, false
+	flipOp := map[token.Token]token.Token{token.LSS: token.GEQ, token.LEQ: token.GTR, token.GTR: token.LEQ, token.GEQ: token.LSS}
+	// normalise "d op 0" to "e >= 0"
+	norm := func(d aff, op token.Token) (aff, bool) {
+		switch op {
+		case token.GEQ:
+			return d, true
+		case token.GTR:
+			return d.sub(aff{0, 0, 1, true}), true
+		case token.LEQ:
+			return d.neg(), true
+		case token.LSS:
+			return d.neg().sub(aff{0, 0, 1, true}), true
+		}
+		return aff{}, false
+	}
+	callBlock := rootIn.Block()
+	for _, b := range root.Blocks {
+		iff, ok := b.Instrs[len(b.Instrs)-1].(*ssa.If)
+		if !ok {
+			continue
+		}
+		bo, ok := iff.Cond.(*ssa.BinOp)
+		if !ok {
+			continue
+		}
+		l, rr := eval(bo.X, 0), eval(bo.Y, 0)
+		if !l.ok || !rr.ok {
+			continue
+		}
+		d := l.sub(rr)
+		switch {
+		case d.cK != 0 && b != callBlock && b.Dominates(callBlock) && (b == k.Block() || k.Block().Dominates(b)):
+			// tested before the body: the call runs on the branch that leads to it
+			op := bo.Op
+			if !(b.Succs[0] == callBlock || b.Succs[0].Dominates(callBlock)) {
+				op = flipOp[op]
+			}
+			guardNorm, guardOK = norm(d, op)
+		case d.cK != 0 && callBlock.Dominates(b) && (b.Succs[0] == k.Block() || b.Succs[1] == k.Block()):
+			// tested after the body (rotated loop): the branch back to the loop head decides the *next* pass,
+			// whose counter is k+step
+			op := bo.Op
+			if b.Succs[0] != k.Block() {
+				op = flipOp[op]
+			}
+			shifted := d
+			shifted.c0 -= d.cK * step.c0
+			guardNorm, guardOK = norm(shifted, op)
+			bottomTested = true
+		}
+	}
+	if bottomTested {
+		// a rotated loop needs a test before the first pass that admits exactly "first index >= 0"
+		entryOK = false
+		for _, b := range root.Blocks {
+			iff, ok := b.Instrs[len(b.Instrs)-1].(*ssa.If)
+			if !ok || b == k.Block() || !b.Dominates(k.Block()) || k.Block().Dominates(b) {
+				continue
+			}
+			bo, ok := iff.Cond.(*ssa.BinOp)
+			if !ok {
+				continue
+			}
+			l, rr := eval(bo.X, 0), eval(bo.Y, 0)
+			if !l.ok || !rr.ok || l.cK != 0 || rr.cK != 0 {
+				continue
+			}
+			op := bo.Op
+			if !(b.Succs[0] == k.Block() || b.Succs[0].Dominates(k.Block())) {
+				op = flipOp[op]
+			}
+			if e, ok := norm(l.sub(rr), op); ok && e.eq(first) {
+				entryOK = true
+			}
+		}
+	}
+
+	return sweep{k: k, idx: idx, start: start, step: step.c0, first: first, perIter: perIter, guardNorm: guardNorm, guardOK: guardOK, entryOK: entryOK}, true
 }
